@@ -1074,31 +1074,31 @@ Proof. intros. now apply intro_sort_thr_lemma. Qed.
 
 (* the three statements about `sort` (current generated threshold) *)
 Theorem sort_no_crash_lemma : forall A (lt : A -> A -> bool) (l : list A), irreflexive lt ->
-  exists r, sort lt l = Ok r.
+  exists r, Sort.sort lt l = Ok r.
 Proof. intros A lt l Irr. destruct (sort_thr_lemma A lt (Z.of_N sort_insertion_threshold) l Irr) as (r & E & _). eauto. Qed.
 
 Theorem sort_permutation_lemma : forall A (lt : A -> A -> bool) (l r : list A), irreflexive lt ->
-  sort lt l = Ok r -> Permutation l r.
+  Sort.sort lt l = Ok r -> Permutation l r.
 Proof.
   intros A lt l r Irr H. destruct (sort_thr_lemma A lt (Z.of_N sort_insertion_threshold) l Irr) as (r' & E & P & _).
-  unfold sort in H. congruence.
+  unfold Sort.sort in H. congruence.
 Qed.
 
 Theorem sort_sorted_lemma : forall A (lt : A -> A -> bool) (l r : list A), strict_weak_order lt ->
-  sort lt l = Ok r -> sorted_by lt r /\ StronglySorted (le_of lt) r.
+  Sort.sort lt l = Ok r -> sorted_by lt r /\ StronglySorted (le_of lt) r.
 Proof.
   intros A lt l r W H.
   destruct (sort_thr_lemma A lt (Z.of_N sort_insertion_threshold) l (swo_irrefl lt W)) as (r' & E & _ & S).
-  unfold sort in H. assert (r' = r) by congruence. subst. split; auto. apply ssorted_sorted_by; auto.
+  unfold Sort.sort in H. assert (r' = r) by congruence. subst. split; auto. apply ssorted_sorted_by; auto.
 Qed.
 
 (* all in one, as the property reads: any array, any strict ordering -> an ordered permutation *)
 Theorem sort_ordered_permutation_lemma : forall A (lt : A -> A -> bool) (l : list A), strict_weak_order lt ->
-  exists r, sort lt l = Ok r /\ Permutation l r /\ sorted_by lt r.
+  exists r, Sort.sort lt l = Ok r /\ Permutation l r /\ sorted_by lt r.
 Proof.
   intros A lt l W. destruct (sort_no_crash_lemma A lt l (swo_irrefl lt W)) as (r & E).
   exists r; repeat split; auto.
-  - eapply sort_permutation_lemma; eauto. apply (swo_irrefl lt W).
+  - eapply sort_permutation_lemma; eauto. exact (swo_irrefl lt W).
   - eapply sort_sorted_lemma; eauto.
 Qed.
 
@@ -1118,7 +1118,7 @@ Proof. exact (swo_by_key Z (fun x => - x)) || (constructor; unfold cmp_gt; intro
 Example cmp_key_swo : strict_weak_order cmp_key.
 Proof. exact (swo_by_key Z (fun x => Z.shiftr x 3)). Qed.
 
-Example sort_example : sort cmp_key [17; 3; 9; 8; 1; 16; 0]%Z = Ok [3; 1; 0; 9; 8; 17; 16]%Z.
+Example sort_example : Sort.sort cmp_key [17; 3; 9; 8; 1; 16; 0]%Z = Ok [3; 1; 0; 9; 8; 17; 16]%Z.
 Proof. vm_compute. reflexivity. Qed.
 
 (* ---------------------------------------------------------------- the hypotheses are needed *)
@@ -1133,7 +1133,7 @@ Qed.
 
 (* a comparator that is not irreflexive ("always before"): partition runs off the array *)
 Theorem sort_needs_irreflexive_refuted :
-  exists (lt : Z -> Z -> bool) l, sort lt l = Crash.
+  exists (lt : Z -> Z -> bool) l, Sort.sort lt l = Crash.
 Proof.
   exists (fun _ _ => true), (repeat 0 20). vm_compute. reflexivity.
 Qed.
